@@ -39,7 +39,7 @@ ExportInv ==
   (Export /\ Len(hist) = MaxSteps /\ Interesting) => PrintT(<<"CASE", ToJson([h |-> hist])>>)
 
 (* error report well-formedness (part of C04): strictly sorted by line, duplicate-free.          *)
-(* errs = sequence of <<line, name, message digest>>                                             *)
+(* errs = sequence of <<line, name, digest of (position incl. column, message, details, traceback)>> *)
 SortedUnique(errs) ==
   /\ \A a, b \in DOMAIN errs : a < b => errs[a][1] <= errs[b][1]
   /\ \A a, b \in DOMAIN errs : a # b => errs[a] # errs[b]
